@@ -303,7 +303,7 @@ def tversky_index(
             if binarize:
                 y = y.round()
         else:
-            y = as_one_hot_tensor(target, num_classes, dtype=y_pred.dtype)
+            y = as_one_hot_tensor(target.unsqueeze(1), num_classes, dtype=y_pred.dtype)
     else:
         raise ValueError(
             "tversky_index() 'target' must be tensor of shape (N, ..., X) or (N, C, ... X)"
